@@ -337,6 +337,77 @@ theorem methods_come_from_routes (api : Api) (cm : ClientModule) (h : pyClient a
     obtain ⟨tf, htf⟩ := routeMethods_all hrl m hml
     exact ⟨ns, hns', by simpa using hc, r, hr, tf, htf⟩
 
+/-- `hygienic` in terms of the spec: the route's namespace (and the namespace of a struct argument) define data
+types - only such namespaces are imported by the client module -, and no parameter / local of the method has the
+name of a module the body uses. -/
+theorem hygienic_of_spec (api : Api) (cm : ClientModule) (h : pyClient api = .ok cm)
+    (ns : Namespace) (hns : ns ∈ api.namespaces) (r : Route) (hr : r ∈ ns.routes) (m : Method)
+    (hm : routeMethod api ns r false = .ok m)
+    (hty : ns.hasDataTypes = true)
+    (harg : ∀ sns sname, stripFirst r.arg = .struct sns sname → ∃ ns' ∈ api.namespaces, ns'.name = sns ∧ ns'.hasDataTypes = true)
+    (hfree : ∀ n ∈ globalsUsed m, n ∉ localNames m) :
+    hygienic cm m = true := by
+  unfold pyClient at h
+  obtain ⟨mss, _, rfl⟩ := except_map_ok h
+  have himp : ∀ ns' ∈ api.namespaces, ns'.hasDataTypes = true →
+      fmtNamespace ns'.name ∈ moduleGlobals { imports := (api.namespaces.filter (·.hasDataTypes)).map (fun ns => fmtNamespace ns.name),
+                                               importsWarnings := api.namespaces.any (fun ns => ns.routes.any (·.deprecated.isSome)),
+                                               methods := mss.flatten } := by
+    intro ns' hn ht
+    unfold moduleGlobals
+    apply List.mem_append_right
+    exact List.mem_map.mpr ⟨ns', List.mem_filter.mpr ⟨hn, ht⟩, rfl⟩
+  unfold routeMethod at hm
+  cases hp : argParamsOf api ns r with
+  | error e => rw [hp] at hm; cases hm
+  | ok ps =>
+    rw [hp] at hm
+    simp only [Except.map] at hm
+    cases hm
+    unfold hygienic
+    apply List.all_eq_true.mpr
+    intro n hn
+    have hloc := hfree n hn
+    simp only [Bool.and_eq_true, Bool.not_eq_true', List.contains_eq_mem, decide_eq_false_iff_not, decide_eq_true_eq]
+    refine ⟨hloc, ?_⟩
+    unfold globalsUsed at hn
+    simp only [List.mem_append] at hn
+    rcases hn with (hn | hn) | hn
+    · -- warnings
+      split at hn
+      · rename_i hd
+        simp only [List.mem_singleton] at hn
+        subst hn
+        unfold moduleGlobals
+        apply List.mem_append_left
+        apply List.mem_append_right
+        have : (api.namespaces.any fun ns => ns.routes.any (·.deprecated.isSome)) = true := by
+          apply List.any_eq_true.mpr
+          refine ⟨ns, hns, List.any_eq_true.mpr ⟨r, hr, ?_⟩⟩
+          simpa [mkMethod] using hd
+        simp [this]
+      · cases hn
+    · -- the module of the argument struct
+      simp only [mkMethod, argBuildOf] at hn
+      cases hs : stripFirst r.arg with
+      | struct sns sname =>
+        rw [hs] at hn
+        simp only [List.mem_singleton] at hn
+        subst hn
+        obtain ⟨ns', hn', rfl, ht'⟩ := harg sns sname hs
+        exact himp ns' hn' ht'
+      | union a b => rw [hs] at hn; cases hn
+      | void => rw [hs] at hn; cases hn
+      | prim a => rw [hs] at hn; cases hn
+      | nullable a => rw [hs] at hn; cases hn
+      | list a => rw [hs] at hn; cases hn
+      | map a b => rw [hs] at hn; cases hn
+      | alias a b c => rw [hs] at hn; cases hn
+    · -- the module of the route object
+      simp only [mkMethod, List.mem_singleton] at hn
+      subst hn
+      exact himp ns hns hty
+
 /-! ## literal tables of the code -/
 
 /-- The literals the model was written from, as the translator finds them in the repository under test: the two
